@@ -69,8 +69,11 @@ pub struct RefCam {
     /// only for A ≥ 0 and a positive denominator
     pub a_cap: f64,
     pub t_den: f64,
-    /// smallest |cone response after adaptation| sign pattern: true if any of R_c, G_c, B_c < 0
+    /// true if any adapted cone response R_c, G_c, B_c is negative (sign branch of the compression)
     pub negative_cone: bool,
+    /// cancellation in A and in the denominator of t: Σ|terms| / |Σ terms| (1 when all cone
+    /// responses are positive); the conditioning of everything downstream scales with it
+    pub kappa: f64,
 }
 
 impl RefCam {
@@ -141,7 +144,7 @@ pub fn forward(p: &RefParams, xyz: V3) -> RefCam {
     if xyz == [0.0, 0.0, 0.0] {
         // the limit of the published equations at the zero stimulus (A = 0 exactly; the offset
         // form would leave a rounding residue of 2·0.1 + 0.1 + 0.005 − 0.305)
-        return RefCam { t_den: 0.305, ..RefCam::default() };
+        return RefCam { t_den: 0.305, kappa: 1.0, ..RefCam::default() };
     }
     let x = [xyz[0] * 100.0, xyz[1] * 100.0, xyz[2] * 100.0];
     let rgb = mat(&M16, x);
@@ -162,7 +165,10 @@ pub fn forward(p: &RefParams, xyz: V3) -> RefCam {
     let c = t.powf(0.9) * (j / 100.0).sqrt() * (1.64 - 0.29f64.powf(p.n)).powf(0.73);
     let m = c * p.f_l.powf(0.25);
     let s = 100.0 * (m / q).sqrt();
-    RefCam { j, c, h, q, m, s, a_cap, t_den, negative_cone: rc.iter().any(|v| *v < 0.0) }
+    let o = [ra[0] - 0.1, ra[1] - 0.1, ra[2] - 0.1];
+    let kappa_a = (2.0 * o[0].abs() + o[1].abs() + o[2].abs() / 20.0) / (2.0 * o[0] + o[1] + o[2] / 20.0).abs();
+    let kappa_t = (o[0].abs() + o[1].abs() + 1.05 * o[2].abs() + 0.305) / t_den.abs();
+    RefCam { j, c, h, q, m, s, a_cap, t_den, negative_cone: rc.iter().any(|v| *v < 0.0), kappa: kappa_a.max(kappa_t) }
 }
 
 /// CAM16-UCS (Li et al. 2017, eq. for J', M', a', b').
